@@ -267,6 +267,36 @@ pub fn shrink(
             }
         }
 
+        // 3b. start from the image a replacement installs, and drop the replacement
+        for i in 0..best.ops.len() {
+            let target = match &best.ops[i] {
+                Op::Replace { image } => Some(*image),
+                Op::Load { plan, .. } => plan.replace_at.map(|(_, img)| img),
+                _ => None,
+            };
+            let Some(img) = target else { continue };
+            let mut c = best.clone();
+            c.initial = img;
+            match &mut c.ops[i] {
+                Op::Replace { .. } => {
+                    c.ops.remove(i);
+                }
+                Op::Load { plan, .. } => {
+                    plan.replace_at = None;
+                }
+                _ => {}
+            }
+            if c.ops.is_empty() {
+                continue;
+            }
+            if let Some(nv) = cx.fails(&c) {
+                best = c;
+                best_v = nv;
+                progress = true;
+                break;
+            }
+        }
+
         // 4. simpler plans
         let n_plans = plans_mut(&mut best).len();
         for pi in 0..n_plans {
